@@ -169,16 +169,22 @@ enum Pre {
     SameSecret,
     RenameBoth,
     Three,
+    /// device 0 rewrote the default folder's history (update + compaction)
+    /// while device 1 appended to the old history: no common ancestor
+    HardCompact,
+    /// device 0 changed the default folder's password (log rewritten)
+    /// while device 1 appended to the old history
+    HardPassword,
 }
 
 fn prehistories(tier: Tier) -> Vec<Pre> {
     if let Ok(only) = std::env::var("SCHEDX_ONLY") {
-        let all = vec![Pre::NoDivergence, Pre::OneAhead, Pre::SoftEqual, Pre::SoftUnequal, Pre::SameSecret, Pre::RenameBoth, Pre::Three];
+        let all = vec![Pre::NoDivergence, Pre::OneAhead, Pre::SoftEqual, Pre::SoftUnequal, Pre::SameSecret, Pre::RenameBoth, Pre::Three, Pre::HardCompact, Pre::HardPassword];
         return all.into_iter().filter(|p| format!("{:?}", p) == only).collect();
     }
     match tier {
-        Tier::Quick => vec![Pre::OneAhead, Pre::SoftEqual, Pre::SoftUnequal, Pre::SameSecret, Pre::Three],
-        Tier::Thorough => vec![Pre::NoDivergence, Pre::OneAhead, Pre::SoftEqual, Pre::SoftUnequal, Pre::SameSecret, Pre::RenameBoth, Pre::Three],
+        Tier::Quick => vec![Pre::OneAhead, Pre::SoftEqual, Pre::SoftUnequal, Pre::SameSecret, Pre::Three, Pre::HardCompact],
+        Tier::Thorough => vec![Pre::NoDivergence, Pre::OneAhead, Pre::SoftEqual, Pre::SoftUnequal, Pre::SameSecret, Pre::RenameBoth, Pre::Three, Pre::HardCompact, Pre::HardPassword],
     }
 }
 
@@ -231,6 +237,24 @@ async fn offline_edits(pre: &Pre, devs: &[Arc<Mutex<LocalAccount>>], t: &Templat
             Pre::RenameBoth => {
                 a.rename_folder(&default, format!("renamed-by-d{}", d)).await?;
             }
+            Pre::HardCompact => {
+                if d == 0 {
+                    let (m, s) = gen::secret("note", 1, "s0-before-compaction");
+                    a.update_secret(&s0, m, Some(s), in_default()).await?;
+                    a.compact_folder(&default).await?;
+                } else {
+                    let (m, s) = create(d, 0);
+                    a.create_secret(m, s, in_default()).await?;
+                }
+            }
+            Pre::HardPassword => {
+                if d == 0 {
+                    a.change_folder_password(&default, sos_core::crypto::AccessKey::Password(secrecy::SecretString::new("c09-new-folder-password-xyz".to_string().into()))).await?;
+                } else {
+                    let (m, s) = create(d, 0);
+                    a.create_secret(m, s, in_default()).await?;
+                }
+            }
         }
     }
     Ok(())
@@ -275,6 +299,7 @@ async fn execute(t: &Template, it: &Item, work: &Path) -> Value {
     let mut fails: Vec<Value> = vec![];
     let n = ndev(&it.pre);
     let prek = format!("{:?}", it.pre);
+    let rewrites = matches!(it.pre, Pre::HardCompact | Pre::HardPassword);
     let res: Result<Value> = async {
         let _ = std::fs::remove_dir_all(work);
         fsutil::copy_dir(Path::new(&t.dir), work)?;
@@ -402,7 +427,10 @@ async fn execute(t: &Template, it: &Item, work: &Path) -> Value {
                 let a = after.get(name).cloned().unwrap_or_default();
                 let lk = name.split(':').next().unwrap();
                 // whole patches only: nothing that was there disappears
-                if !multiset_le(b, &a) {
+                // (a folder log that a device rewrote on purpose - compaction,
+                // password change - is replaced as a whole by a write request)
+                let rewrite_ok = rewrites && lk == "folder" && matches!(kind, "sync" | "patch" | "update");
+                if !multiset_le(b, &a) && !rewrite_ok {
                     fails.push(json!({"sig": format!("server_log_lost_events:{}:{}:{}", kind, lk, prek), "what": format!("after a {} request the server's {} log no longer contains events it held before", kind, lk)}));
                 }
                 // a request that is not a write never changes a log
@@ -467,8 +495,11 @@ async fn execute(t: &Template, it: &Item, work: &Path) -> Value {
             for (name, hs) in &ack {
                 let f = fin.get(name).cloned().unwrap_or_default();
                 let fset: HashSet<[u8; 32]> = f.iter().copied().collect();
+                let lk = name.split(':').next().unwrap();
+                if rewrites && lk == "folder" {
+                    continue;
+                }
                 if hs.iter().any(|h| !fset.contains(h)) {
-                    let lk = name.split(':').next().unwrap();
                     fails.push(json!({"sig": format!("acknowledged_event_dropped:{}:{}", lk, prek), "what": format!("an event the server once held in its {} log is absent at the end", lk)}));
                 }
             }
